@@ -446,7 +446,15 @@ pub fn gen_cell(rng: &mut Rng, b: &BuiltStack, with_insts: bool) -> RCell {
             let span = cell.span_breadth(r, l).0;
             pieces(span, &sig_occ(&cell, &occ, l, t)).into_iter().find(|(a, z)| pos > *a && pos < *z).map(|p| p.0)
         };
-        if let (Some(pb), Some(ptp)) = (find_piece(bot, tb, pos_b), find_piece(top, tt, pos_t)) {
+        // the crossing may also fall exactly on the FAR end of a wire piece, where a cut or an instance begins (track centres and instance
+        // edges both sit on the primitive grid in many stacks): that piece is the only wire touching the crossing, and it is the first
+        // thing on the track that does, so it carries the net (or the cell is refused). The near end is left out: there the cut or
+        // blockage comes first, and what then "covers" the crossing is a tie the statement does not settle.
+        let find_piece_or_far_end = |l: usize, t: usize, pos: i64| -> Option<i64> {
+            let span = cell.span_breadth(r, l).0;
+            pieces(span, &sig_occ(&cell, &occ, l, t)).into_iter().find(|(a, z)| pos > *a && (pos < *z || (pos == *z && *z < span))).map(|p| p.0)
+        };
+        if let (Some(pb), Some(ptp)) = (find_piece_or_far_end(bot, tb, pos_b), find_piece(top, tt, pos_t)) {
             if used.contains(&(bot, tb, pb)) || used.contains(&(top, tt, ptp)) {
                 continue;
             }
